@@ -3,8 +3,8 @@
    Print Assumptions follows every theorem.  visit_stored is the model of getDocStoredOffsets + visitDocument on an uncompressed block; stored_record / block_of are what the builder and the merger write. *)
 
 From Coq Require Import List NArith Bool Sorting Permutation.
-From Ice Require Import Base Spec Varint Stored.
-From IceProofs Require Stored_Proofs Build_Proofs.
+From Ice Require Import Base Spec Varint Stored Run StoredWriter.
+From IceProofs Require Stored_Proofs Build_Proofs StoredWriter_Proofs.
 Import ListNotations.
 Open Scope N_scope.
 
@@ -14,7 +14,7 @@ Theorem stored_record_visit :
     Stored_Proofs.wf_svals (length fields) vals ->
     visit_stored (pre ++ stored_record vals ++ post) (lenN pre) fields stop =
     Ok (Stored_Proofs.take_stop stop (Stored_Proofs.resolve_vals fields vals)).
-Proof. exact Stored_Proofs.stored_record_visit. Qed.
+Proof. exact @Stored_Proofs.stored_record_visit. Qed.
 Print Assumptions stored_record_visit.
 
 (* document i of a block written by the coder, addressed through its recorded offset *)
@@ -24,25 +24,25 @@ Theorem block_visit :
     nth_error docs i = Some vals ->
     visit_stored (block_of docs) (nth i (block_offsets 0 docs) 0) fields stop =
     Ok (Stored_Proofs.take_stop stop (Stored_Proofs.resolve_vals fields vals)).
-Proof. exact Stored_Proofs.block_visit. Qed.
+Proof. exact @Stored_Proofs.block_visit. Qed.
 Print Assumptions block_visit.
 
 (* the clamped 10-byte look-ahead always holds the whole length varint *)
 Theorem uvarint_window_put :
     forall (x : N) (rest : bytes),
     x < two64 -> uvarint_window (put_uvarint x ++ rest) 0 0 0 = Ok (x, lenN (put_uvarint x)).
-Proof. exact Stored_Proofs.uvarint_window_put. Qed.
+Proof. exact @Stored_Proofs.uvarint_window_put. Qed.
 Print Assumptions uvarint_window_put.
 
 Theorem block_offsets_length :
     forall (docs : list SVals) (acc : N), length (block_offsets acc docs) = length docs.
-Proof. exact Stored_Proofs.block_offsets_length. Qed.
+Proof. exact @Stored_Proofs.block_offsets_length. Qed.
 Print Assumptions block_offsets_length.
 
 (* a document without stored fields is a 2-byte record *)
 Theorem empty_doc_record :
     stored_record [] = [0; 0].
-Proof. exact Stored_Proofs.empty_doc_record. Qed.
+Proof. exact @Stored_Proofs.empty_doc_record. Qed.
 Print Assumptions empty_doc_record.
 
 (* what a built segment must deliver: the stored values of that document in field-list order, input order within a field *)
@@ -50,28 +50,64 @@ Theorem build_stored :
     forall (norm : bytes -> N -> N) (b : Batch) (n : nat) (doc : Doc),
     nth_error b n = Some doc ->
     o_stored (abs_of_batch norm b) (N.of_nat n) = abs_stored (field_list (batch_field_names b)) doc.
-Proof. exact Build_Proofs.build_stored. Qed.
+Proof. exact @Build_Proofs.build_stored. Qed.
 Print Assumptions build_stored.
 
 (* nothing for n >= Count *)
 Theorem build_stored_out_of_range :
     forall (norm : bytes -> N -> N) (b : Batch) (n : N),
     lenN b <= n -> o_stored (abs_of_batch norm b) n = [].
-Proof. exact Build_Proofs.build_stored_out_of_range. Qed.
+Proof. exact @Build_Proofs.build_stored_out_of_range. Qed.
 Print Assumptions build_stored_out_of_range.
+
+(* the builder (per-document map of stored values, ascending field id, chunkedDocumentCoder with Size() recorded before Add and a flush every 128 documents) writes exactly the blocks and offsets of the specification *)
+Theorem build_stored_correct :
+    forall (norm : bytes -> N -> N) (b : Batch),
+    let fields := field_list (batch_field_names b) in
+    build_stored_batch fields b = layout_of (map (svals_of fields) (as_docs (abs_of_batch norm b))).
+Proof. exact @StoredWriter_Proofs.build_stored_correct. Qed.
+Print Assumptions build_stored_correct.
+
+Theorem doc_coder_layout :
+    forall ds : list SVals,
+    let
+    '(c, offs) := StoredWriter_Proofs.add_docs ds dc_new [] in
+    (dc_blocks (dc_finish c), offs) = layout_of ds.
+Proof. exact @StoredWriter_Proofs.doc_coder_layout. Qed.
+Print Assumptions doc_coder_layout.
+
+(* ... and so does the merger on both of its paths *)
+Theorem merged_stored_layout :
+    forall ins : list (ASeg * list N),
+    Forall (fun p : ASeg * list N => StoredWriter_Proofs.wf_seg (fst p)) ins ->
+    let Mg := fst (merge_spec ins) in
+    merge_stored (map StoredWriter_Proofs.seg_input ins) (o_count Mg) =
+    Ok (layout_of (StoredWriter_Proofs.seg_docs Mg)).
+Proof. exact @StoredWriter_Proofs.merge_stored_correct. Qed.
+Print Assumptions merged_stored_layout.
+
+(* the copy path parses every record correctly wherever it sits, with any stale bytes behind the block, including a 2-byte record at the very end *)
+Theorem copy_block_ok :
+    forall (rest : list SVals) (fuel : nat) (bpre stale : bytes) (st : MergeSt),
+    Forall StoredWriter_Proofs.rec_sizes_ok rest ->
+    (length rest <= fuel)%nat ->
+    copy_block fuel (bpre ++ block_of rest ++ stale) (lenN bpre + lenN (block_of rest)) (lenN bpre) st =
+    StoredWriter_Proofs.emit_docs rest st.
+Proof. exact @StoredWriter_Proofs.copy_block_ok. Qed.
+Print Assumptions copy_block_ok.
 
 (* regression of the method: the pre-fix look-ahead (sliced past len into the capacity) is refuted by a witness *)
 Theorem stored_prefix_refuted :
     exists (block : list N) (off : N),
     (exists vals : SVals, block = [5; 5; 5] ++ stored_record vals /\ off = 3) /\
     stored_lens_prefix block [] off = Panic /\ (exists r : N * N * N, stored_lens block off = Ok r).
-Proof. exact Stored_Proofs.stored_prefix_refuted. Qed.
+Proof. exact @Stored_Proofs.stored_prefix_refuted. Qed.
 Print Assumptions stored_prefix_refuted.
 
 (* ... and succeeds when the reused buffer happens to have spare capacity: history dependence *)
 Example stored_prefix_spare_capacity :
     exists r : N * N * N, stored_lens_prefix [5; 5; 5; 0; 0] [9; 9; 9; 9; 9; 9; 9; 9; 9; 9] 3 = Ok r.
-Proof. exact Stored_Proofs.stored_prefix_spare_capacity. Qed.
+Proof. exact @Stored_Proofs.stored_prefix_spare_capacity. Qed.
 Print Assumptions stored_prefix_spare_capacity.
 
 Example block_visit_example :
@@ -81,5 +117,5 @@ Example block_visit_example :
     Stored_Proofs.ex_fields None = Ok [] /\
     visit_stored (block_of Stored_Proofs.ex_docs) (nth 0 (block_offsets 0 Stored_Proofs.ex_docs) 0)
     Stored_Proofs.ex_fields (Some 1) = Ok [([97], [1; 2; 3])].
-Proof. exact Stored_Proofs.block_visit_example. Qed.
+Proof. exact @Stored_Proofs.block_visit_example. Qed.
 Print Assumptions block_visit_example.
